@@ -78,6 +78,9 @@ impl Marker {
                 MarkEvent::NodeStart { kind, .. } => *kind = LuaSyntaxKind::None,
                 _ => unreachable!(),
             }
+            // the removed node is no longer open: keep `mark_level` equal to the number of
+            // started-but-unfinished nodes, error recovery closes exactly that many
+            p.decr_mark_level();
             return CompleteMarker {
                 start: 0,
                 kind: LuaSyntaxKind::None,
@@ -97,6 +100,8 @@ impl Marker {
             }
             _ => unreachable!(),
         }
+        // an undone node is no longer open (see `complete`)
+        p.decr_mark_level();
 
         CompleteMarker {
             start: self.position,
